@@ -113,15 +113,20 @@ def main(pid, tier, seed):
     tid = 0
     n_lists = 8 if tier == 'quick' else 250
     n_cands = 0
-    for k in range(n_lists):
+    from . import lists as _lists
+    specials = sorted(_lists.special_lists().items())
+    for k in range(n_lists + len(specials)):
         pool = rng.choice(list(check_train.POOLS))
         pws = check_train.make_list(rng, pool, with_ew=(pool == 'ascii'))
-        if k % 4 == 1:
+        if k >= n_lists:
+            sname, (pws, sopt) = specials[k - n_lists]
+            pws, pool = list(pws), 'special:' + sname
+        if k % 4 == 1 and k < n_lists:
             pws += ['ẞtraße', 'İstanbul', 'ǅur'] * 2       # letters whose case mapping is not invertible
-        if k % 4 == 2:
+        if k % 4 == 2 and k < n_lists:
             pool = 'tiers'
             pws = tier_list(rng)
-        if k % 4 == 3:
+        if k % 4 == 3 and k < n_lists:
             pws = check_train.tie_list(rng, pool)
         res = train.train(pws, ngram=rng.choice([2, 3]), alphabet_size=100, coverage=rng.choice([0.6, 0.5, 1]))
         if not res['ok']:
